@@ -674,6 +674,8 @@ func (f *Frame) instr(in ssa.Instruction) {
 			sortName := fmt.Sprintf("(Array %s Bool)", e.sortOf(mt.Key()))
 			e.comp(f.st, comp, sortName)
 			e.setComp(f.st, comp, fmt.Sprintf("((as const %s) false)", sortName))
+			e.comp(f.st, countComp(f, in), e.idxSort())
+			e.setComp(f.st, countComp(f, in), e.idxLit("0"))
 		}
 	case *ssa.Next:
 		f.next(in)
@@ -771,7 +773,8 @@ func (e *Enc) inBounds(i, n string) string {
 }
 
 func (e *Enc) mapComps(mt *types.Map) (dom, val string) {
-	k := sortKey(e.sortOf(mt.Key())) + "_" + sortKey(e.sortOf(mt.Elem()))
+	// one pair of components per Go map type
+	k := shortTypeName(mt.Key()) + "_" + shortTypeName(mt.Elem())
 	dom, val = "MD_"+k, "MV_"+k
 	if _, ok := e.comps[dom]; !ok {
 		e.comps[dom] = fmt.Sprintf("(Array Int (Array %s Bool))", e.sortOf(mt.Key()))
